@@ -133,10 +133,12 @@ var checks = map[string]checkCfg{
 		Assumptions: append([]string{"virtual clock rewrite as C18", "a client is compliant while every one of its arrivals finds >= 1 token in its own ideal per-IP and per-connection buckets (arrivals, not admissions, drain them)"}, baseAssumptions...),
 		Phases: []phase{{Name: "limiter", Variant: "clock", Tests: "^TestC19$", QuickShards: 8, QuickChecks: 3000, ThoroughShards: 16, ThoroughChecks: 50000, ReplayVariant: true}}},
 	"C20": {Level: "exploration", Technique: "rapid action lists with gated tasks vs per-task accounting inspected after the pool stopped; also under the race detector",
-		Rule:        "each case draws a pool size 1-3 and 2-14 actions over {submit a task blocking on a gate, submit a quick task (each through Submit or SubmitWait), open a gate, Resize to 1-3, Stop}; afterwards every gate is opened, pending Stop/Resize calls are awaited and the pool is stopped; non-trivial = Stop or Resize was issued while >=1 task was queued behind busy workers; distinct = FNV-64 of the case JSON. Interleavings are sampled; blocked submitters are decided by state (pool stopped, workers gone), not by a timeout verdict",
+		Rule:        "each case draws a pool size 1-3 and 2-14 actions over {submit a task blocking on a gate, submit a quick task (each through Submit or SubmitWait), open a gate, Resize to 1-3, Stop}; afterwards every gate is opened, pending Stop/Resize calls are awaited and the pool is stopped; non-trivial = Stop or Resize was issued while >=1 task was queued behind busy workers; distinct = FNV-64 of the case JSON. Interleavings are sampled; blocked submitters are decided by state (pool stopped, workers gone), not by a timeout verdict. Phase exec drives the pool the way requests do, through AbsfsNFS.ExecuteWithWorker: 2-14 actions over {gated task, quick task (results: a token, nil, a typed nil pointer, a zero struct, an error value), open a gate, resize through UpdateTuningOptions(MaxWorkers 0-3), Close}; every call must return once all gates are open, its task must have run exactly once and the returned value must be the task's (non-trivial there = a task with a result other than the token)",
 		Assumptions: baseAssumptions,
 		Phases: []phase{rp("rapid", "^TestC20$", 6, 60, 16, 600),
-			{Name: "race", Variant: "race", Tests: "^TestC20$", QuickShards: 2, QuickChecks: 40, ThoroughShards: 8, ThoroughChecks: 300}}},
+			{Name: "race", Variant: "race", Tests: "^TestC20$", QuickShards: 2, QuickChecks: 40, ThoroughShards: 8, ThoroughChecks: 300},
+			{Name: "exec", Variant: "plain", Tests: "^TestC20Exec$", QuickShards: 4, QuickChecks: 120, ThoroughShards: 16, ThoroughChecks: 1500},
+			{Name: "execrace", Variant: "race", Tests: "^TestC20Exec$", QuickShards: 1, QuickChecks: 40, ThoroughShards: 4, ThoroughChecks: 300}}},
 	"C21": {Level: "exploration", Technique: "rapid operation/clock histories vs exact reference LRU (no expiry) and validity predicates (expiry); concurrent variant under the race detector",
 		Rule:        "each case picks AttrCache or DirCache, capacity 1-5, a TTL, the regime (exact LRU without clock advance, or expiry with advances below/at/above the TTL) and 3-40 operations over Put/PutNegative/Get/Invalidate/InvalidateNegativeInDir/InvalidateSubtree/Resize/UpdateTTL/ConfigureNegativeCaching/Clear/advance on 8 paths chosen to stress the direct-child test, with copy-isolation mutations after Put and Get; every case ends with a sweep over all keys; non-trivial = an eviction or expiry happened and the affected key was looked up afterwards; the concurrent phase runs 4 goroutines over shared caches under -race; distinct = FNV-64 of the case JSON",
 		Assumptions: append([]string{"cache.go is compiled with time.Now/time.Since mechanically redirected to the harness clock", "at the exact expiry instant hit and miss are both accepted", "a DirCache Put larger than maxDirSize is treated as not stored"}, baseAssumptions...),
